@@ -2131,6 +2131,14 @@ class Mailbox:
             for msg_key in to_delete:
                 self.sequences[seq].discard(msg_key)
         self.num_recent = len(self.sequences["Recent"])
+
+        # The removed messages must disappear from the folder's .mh_sequences
+        # too. MH gives the next delivered message the highest key + 1, so a
+        # freed key is used again and that message would inherit the flags
+        # of the one we just removed.
+        #
+        async with self.mh_sequences_lock:
+            self.set_sequences_in_folder(self.sequences)
         await self.commit_to_db()
         self.optional_resync = False
 
@@ -3002,6 +3010,8 @@ class Mailbox:
         mbox.num_recent = 0
         mbox.uids = []
         mbox.sequences = defaultdict(set)
+        async with mbox.mh_sequences_lock:
+            mbox.set_sequences_in_folder(mbox.sequences)
 
         # If the mailbox has any active clients we set their selected
         # mailbox to None. client.py will know if they try to do any
